@@ -243,10 +243,15 @@ def _array(data, dtype=None):
     if isinstance(data, SArr): return data
     if isinstance(data, NPScalar): 
         a=SArr((), type(data), [data.v]); return a
+    kinds=[("f" if (isinstance(x, NPScalar) and x.isfloat) or isinstance(x, float) else ("u" if isinstance(x, NPScalar) and not x.signed else "i")) for x in data]
     vals=[_ai(x) for x in data]
     if dtype is None:
-        # numpy promotion for the cases in sketchnu: all unsigned ints -> widest (uint64)
-        dtype=uint64
+        # numpy's result type: floats win; unsigned numpy scalars alone -> uint64; uint64 mixed with Python ints or signed
+        # scalars has no common integer type -> float64 (values above 2^53 are rounded!)
+        if "f" in kinds: dtype=float64
+        elif "i" in kinds and any(isinstance(x, NPScalar) and not x.signed and x.bits==64 for x in data): dtype=float64
+        elif "i" in kinds: dtype=int64
+        else: dtype=uint64
     if dtype.isfloat: vals=[to_f64(v) for v in vals]
     return SArr((len(vals),), dtype, vals)
 def _copy(a):
@@ -290,6 +295,15 @@ class _Random:
 
 numpy.random = _Random()
 numpy.count_nonzero = lambda a: sum(1 for x in a.tolist() if x != 0)
+
+
+def _array_equal(a, b):
+    a = a if isinstance(a, SArr) else _array(a)
+    b = b if isinstance(b, SArr) else _array(b)
+    return tuple(a.shape) == tuple(b.shape) and all(x == y for x, y in zip(a.tolist(), b.tolist()))
+
+
+numpy.array_equal = _array_equal
 numpy.log = lambda x: x
 numpy.exp = lambda x: x
 numpy.interp = lambda x, xp, fp: 0.0
